@@ -24,6 +24,7 @@ type FuncResult struct {
 	Loops       int
 	Clauses     int
 	Plan        *ReplayPlan
+	Unbound     string // the contract could not be bound to the code (reason)
 }
 
 // afterRequires, when set (counterexample replay), is called once the
@@ -178,6 +179,15 @@ func verifyFunction(l *Loaded, cs *Contracts, fn *ssa.Function, con *Contract) (
 	}
 	for _, invs := range con.LoopInvs {
 		res.Clauses += len(invs)
+	}
+	// obligation names are file names and finding keys: make them unique (the
+	// same call inside a deferred closure is encoded once per return site)
+	dup := map[string]int{}
+	for _, o := range e.obls {
+		dup[o.Name]++
+		if n := dup[o.Name]; n > 1 {
+			o.Name = fmt.Sprintf("%s~%d", o.Name, n)
+		}
 	}
 	res.Obls = e.obls
 	res.Notes = e.notes
